@@ -20,7 +20,7 @@ NOW = {
  "C18-r4-1": (["C12"], "needed an `@forward .. as p_*` prefix spelled with an underscore: 35 % of the generated `p-` prefixes (and every name derived from them) are now spelled `p_`"),
  "C18-r4-2": (["C18"], "needed an indented-syntax selector list broken after a comma that is followed by blanks, a tab or a silent comment: twin documents gained rules whose selector list spans several lines (the SCSS twin breaks its lines at the same commas, since a line break after a comma is kept in the output)"),
  "C08-r4-2": (["C08"], "needed math.min/math.max with at least three arguments in mixed convertible units, ordered so that the running extreme changes unit before a later comparison (a near-duplicate of C08-r2-1, which two-argument calls caught): C08 now enumerates `math.max(a, b, a * 3)` / `math.min(a, b, a / 3)` over all unit pairs"),
- "C16-r4-2": (["C01"], "C16's expression generator builds clamp() with ordered, mutually comparable bounds only; the panic is reported by C01's built-in-call class (clamp with a unitless first argument and two inconvertible units). Not strengthened in C16 for lack of time - recorded as a miss of C16's own check"),
+ "C16-r4-2": (["C16", "C01"], "C16 built clamp() with mutually comparable bounds only; it now also enumerates every unit triple (12^3) under clamp(), min() and max() with values 1/2/3, judged for no-crash only: 5 184 sheets"),
 }
 kept = 0
 for key, line in sorted(conf.items()):
